@@ -26,8 +26,12 @@ def TableSane (tbl : Nat → Str) : Prop :=
 
 def isLowerHex (c : Nat) : Bool := isAsciiDigit c || (97 ≤ c && c ≤ 102)
 
-/-- Hypothesis on the logged digest: `hexdigest()` starts with 8 lower-case hex digits. -/
+/-- a digest: `hexdigest()` starts with 8 lower-case hex digits -/
 def HexDigest (d : Str) : Prop := 8 ≤ d.length ∧ ∀ x ∈ d.take 8, isLowerHex x = true
+
+/-- Hypothesis on the hash parameter: every value is a hex digest (checked on every
+logged digest). -/
+def ShaSane (sha : Str → Str) : Prop := ∀ x, HexDigest (sha x)
 
 /-! ## helper lemmas -/
 
@@ -195,11 +199,12 @@ theorem winTrailing_eq (cfg : SafeCfg) (q w : Str) (h : winTrailing cfg q = .ok 
       rfl
   · cases h; rfl
 
-theorem truncate_inv (cfg : SafeCfg) (d w : Str) (hd : HexDigest d) (hw : Inv cfg w) :
-    Inv cfg (truncate cfg d w) := by
+theorem truncate_inv (cfg : SafeCfg) (sha : Str → Str) (w : Str) (hd : ShaSane sha) (hw : Inv cfg w) :
+    Inv cfg (truncate cfg sha w) := by
   unfold truncate
   split
-  · obtain ⟨hlen, hhex⟩ := hd
+  · obtain ⟨hlen, hhex⟩ := hd w
+    generalize sha w = d at hlen hhex ⊢
     have hl : (d.take 8).length = 8 := by simp; omega
     have h8 : 8 ≤ (List.take (cfg.maxLen - 8).toNat w ++ List.take 8 d).length := by
       rw [List.length_append, hl]; omega
@@ -305,9 +310,9 @@ unix or windows, every sane case table, every hex digest and every NON-EMPTY
 name: whatever `safe_filename` returns is a single safe path component —
 non-empty, not "." or "..", no "/", no C0 control unless `nocontrol`; in
 Windows mode additionally none of `\|/:?"*<>`. -/
-theorem safe_component (cfg : SafeCfg) (tbl : Nat → Str) (digest name r : Str)
-    (hos : cfg.os ≠ .other) (ht : TableSane tbl) (hd : HexDigest digest) (hn : name ≠ [])
-    (h : safeFilename cfg tbl digest name = .ok r) :
+theorem safe_component (cfg : SafeCfg) (tbl : Nat → Str) (sha : Str → Str) (name r : Str)
+    (hos : cfg.os ≠ .other) (ht : TableSane tbl) (hd : ShaSane sha) (hn : name ≠ [])
+    (h : safeFilename cfg tbl sha name = .ok r) :
     SafeComponent cfg.noControl r ∧ (cfg.os = .windows → ∀ c ∈ r, c ∉ winChars) := by
   unfold safeFilename at h
   split at h
@@ -320,7 +325,7 @@ theorem safe_component (cfg : SafeCfg) (tbl : Nat → Str) (digest name r : Str)
       have hwq := winTrailing_eq cfg q w hw
       subst hwq
       exact inv_safe cfg _ (foldStr_inv cfg tbl ht cfg.case _
-        (truncate_inv cfg digest _ hd (quoteName_inv cfg hos name _ hn hq)))
+        (truncate_inv cfg sha _ hd (quoteName_inv cfg hos name _ hn hq)))
 
 /-! ### which inputs raise -/
 
@@ -377,7 +382,7 @@ theorem quote_last (cfg : SafeCfg) (name : Str) :
   or a dot → `ValueError`: `'{1:02X}'.format(str)` can never succeed, so the
   "escape the trailing character" branch is in fact "raise".
 Nothing else raises; no path is produced on these inputs. -/
-theorem error_branch (cfg : SafeCfg) (tbl : Nat → Str) (digest name : Str) (e : PyExc) :
+theorem error_branch (cfg : SafeCfg) (tbl : Nat → Str) (digest : Str → Str) (name : Str) (e : PyExc) :
     safeFilename cfg tbl digest name = .error e ↔
       (name ≠ dot ∧ name ≠ dotdot) ∧
       ((name.any isSurrogate = true ∧ e = .UnicodeEncodeError) ∨
